@@ -148,6 +148,17 @@ impl Context for CommonContext {
             .clone()
     }
 
+    fn exist(&self, name: &String) -> bool {
+        // a #define is looked up as it is written and comes first: a symbol whose name differs
+        // from it in letter case only would be read as the #define (value 0) in that spelling
+        self.defines
+            .borrow()
+            .keys()
+            .any(|define| define.eq_ignore_ascii_case(name))
+            || self.get_expr(name).is_some()
+            || self.get_def(name).is_some()
+    }
+
     fn set_define(&self, name: String, expr: Expr) -> Option<Expr> {
         self.defines.borrow_mut().insert(name, expr)
     }
